@@ -135,3 +135,50 @@ Theorem C01_inlist_faithful : forall extra k disj f fo vals txt,
   exists es, all_some (map (fun v => key_of_val f (fst v)) vals) = Some es /\ in_decode (W_of extra) txt = Some (disj, es).
 Proof. intros extra k disj f fo vals txt Hw Hq. exact (inlist_faithful (W_of extra) (Wspec_W_of extra Hw) k Hq disj f fo vals txt). Qed.
 Print Assumptions C01_inlist_faithful.
+
+(* ---- end to end: render the tree, read the text back, parse ---- *)
+From PS Require Import Proofs.QueryP.
+(* reading a rendered token sequence (lexing, decoding every atom, identifying it with its reference
+   predicate) gives the token sequence back, up to the field number of in-lists, which the parser ignores *)
+Theorem C01_read_show : forall W keys atxt ftxt vtxt ts,
+  (forall t, In t ts -> is_atom t = true -> shapeb (stxt atxt ftxt vtxt t) = true) -> sep_ok ts = true ->
+  Forall (atom_reads W keys atxt ftxt vtxt) ts ->
+  read_query W keys (show vb_syntax atxt ftxt vtxt ts) = Some (map norm_tok ts).
+Proof. exact read_show. Qed.
+Print Assumptions C01_read_show.
+(* For every configuration and every condition tree in the domain of C01_structure whose atoms are rendered
+   as lexical units that decode to their reference predicates (which C01_leaf_faithful, C01_leaf_lexical and
+   C01_inlist_faithful provide for the leaves the verification backend renders): the query TEXT, read by the
+   target language's reader and parsed by its precedence rules, denotes exactly the boolean function of the
+   tree, for every truth assignment. *)
+Theorem C01_query_meaning : forall W keys atxt ftxt vtxt K asg c,
+  cfg_ok K = true -> wfb K c = true ->
+  (forall t, In t (conv K false c) -> is_atom t = true -> shapeb (stxt atxt ftxt vtxt t) = true) ->
+  Forall (atom_reads W keys atxt ftxt vtxt) (conv K false c) ->
+  exists ts, read_query W keys (show vb_syntax atxt ftxt vtxt (conv K false c)) = Some ts /\
+             exists f, pe (lvl K) asg f 3 ts = Some (den asg c, []).
+Proof. exact query_meaning. Qed.
+Print Assumptions C01_query_meaning.
+
+(* ---- the fixed fuel of the entry point tparse (the function the judge evaluates) always suffices ---- *)
+From PS Require Import Proofs.FuelP.
+Theorem C01_tparse_complete : forall K asg f ts v,
+  pe (lvl K) asg f 3 ts = Some (v, []) -> tparse (lvl K) asg ts = Some v.
+Proof. exact tparse_complete. Qed.
+Print Assumptions C01_tparse_complete.
+Theorem C01_structure_tparse : forall K asg c, cfg_ok K = true -> wfb K c = true ->
+  tparse (lvl K) asg (conv K false c) = Some (den asg c).
+Proof. intros K asg c HK Hw. destruct (structure_b K asg c HK Hw) as [f Hf]. exact (tparse_complete K asg f _ _ Hf). Qed.
+Print Assumptions C01_structure_tparse.
+Theorem C01_query_meaning_tparse : forall W keys atxt ftxt vtxt K asg c,
+  cfg_ok K = true -> wfb K c = true ->
+  (forall t, In t (conv K false c) -> is_atom t = true -> shapeb (stxt atxt ftxt vtxt t) = true) ->
+  Forall (atom_reads W keys atxt ftxt vtxt) (conv K false c) ->
+  exists ts, read_query W keys (show vb_syntax atxt ftxt vtxt (conv K false c)) = Some ts /\
+             tparse (lvl K) asg ts = Some (den asg c).
+Proof.
+  intros W keys atxt ftxt vtxt K asg c HK Hw Hs Hr.
+  destruct (query_meaning W keys atxt ftxt vtxt K asg c HK Hw Hs Hr) as [ts [Hq [f Hf]]].
+  exists ts. split; [exact Hq|exact (tparse_complete K asg f _ _ Hf)].
+Qed.
+Print Assumptions C01_query_meaning_tparse.
